@@ -35,6 +35,9 @@ WReadBack(openRet, valRet, delivered, eq, closeRet) ==
 WToolZck(status, f) == (status = 0 => (f.valid /\ f.contentEq)) /\ UNCHANGED wvars
 WToolUnzck(zckStatus, status, outEq) == ((zckStatus = 0 /\ status = 0) => outEq) /\ (zckStatus = 0 => status = 0) /\ UNCHANGED wvars
 
+\* C12: under an injected I/O fault only "exit 0 => complete correct output" is demanded
+WToolUnzckFaulty(status, outEq) == (status = 0 => outEq) /\ UNCHANGED wvars
+
 \* ---------------------------------------------------------------- C16
 \* A finished run: cfg and content identify what was written, seg how; file = digest of the produced
 \* file; chunks = data chunks in order as [ulen, end, fromEnd, id] (id = digest of checksum + stored bytes).
